@@ -56,6 +56,7 @@ HEADERS = [
     'osmium/geom/tile.hpp', 'osmium/handler/check_order.hpp', 'osmium/util/delta.hpp', 'osmium/osm/item_type.hpp',
     'osmium/osm/object.hpp', 'osmium/index/relations_map.hpp', 'osmium/relations/members_database.hpp',
     'osmium/io/detail/pbf_output_format.hpp', 'osmium/io/detail/opl_parser_functions.hpp', 'osmium/io/detail/string_util.hpp',
+    'osmium/handler/node_locations_for_ways.hpp',
 ]
 INSTANTIATE = [
     'template class osmium::index::IdSetDense<unsigned long>;',
@@ -66,6 +67,8 @@ INSTANTIATE = [
     'template class osmium::util::DeltaEncode<unsigned int, int>;',
     'template class osmium::util::DeltaEncode<int, int>;',
     'template class osmium::util::DeltaDecode<long, long>;',
+    # the handler of C12 over the abstract Map interface (what harness/c12.cpp instantiates)
+    'template class osmium::handler::NodeLocationsForWays<osmium::index::map::Map<unsigned long, osmium::Location>, osmium::index::map::Map<unsigned long, osmium::Location> >;',
     # RelationsMapIndex::for_each is a member template: one instantiation to look at
     'namespace x2l_inst { inline void f(const osmium::index::RelationsMapIndex& ix) { ix.for_each(0, [](osmium::unsigned_object_id_type) {}); } }',
 ]
@@ -77,6 +80,8 @@ DELTA = 'osmium::util::'
 KV32 = 'osmium::index::detail::flat_map<unsigned long, unsigned int, unsigned long, unsigned int>::kv_pair'
 KV64 = 'osmium::index::detail::flat_map<unsigned long, unsigned long, unsigned long, unsigned long>::kv_pair'
 MDB = 'osmium::relations::MembersDatabaseCommon::'
+NLFW = ('osmium::handler::NodeLocationsForWays<osmium::index::map::Map<unsigned long, osmium::Location>, '
+        'osmium::index::map::Map<unsigned long, osmium::Location>>')
 
 # fn = qualified name; sig = substring of the function type (overloads); local / cond = extraction;
 # name = Lean name of an extracted expression
@@ -100,6 +105,17 @@ TARGETS = [
     dict(fn=FLEX + '::block'), dict(fn=FLEX + '::offset'),
     dict(fn=FLEX + '::set_sparse', cond=1, name='set_sparse_cond_min_entries'),
     dict(fn=FLEX + '::set_sparse', cond=2, name='set_sparse_cond_density'),
+    # C12: NodeLocationsForWays — node()/way()/get_node_location() call virtual index methods and range over the
+    # way's node refs (outside the subset); every condition that steers them is translated
+    dict(fn=NLFW + '::node', cond=0, name='nlfw_node_cond_out_of_order'),
+    dict(fn=NLFW + '::node', local='id', name='nlfw_node_id'),
+    dict(fn=NLFW + '::node', cond=1, name='nlfw_node_cond_positive'),
+    dict(fn=NLFW + '::get_node_location', cond=0, name='nlfw_get_cond_positive'),
+    dict(fn=NLFW + '::way', cond=0, name='nlfw_way_cond_must_sort'),
+    # cond=-1 = the LAST `if` of way() (the throw); the `if (!node_ref.location())` inside the range-for goes through the
+    # non-const NodeRef::location(), whose generated name would clash with the const overload: not extracted
+    dict(fn=NLFW + '::way', cond=-1, name='nlfw_way_cond_throw'),
+    dict(fn=NLFW + '::ignore_errors'),
     dict(fn='osmium::ItemStash::should_gc'),
     dict(fn='osmium::detail::parse_timestamp', sig='(const char **)', local='leap_year', name='parse_timestamp_leap_year'),
     dict(fn=SEGNS + 'outside_x_range'),
@@ -152,6 +168,8 @@ TARGETS = [
     dict(fn=KV64 + '::operator<'), dict(fn=KV64 + '::operator=='), dict(fn=KV64 + '::kv_pair', sig='key_type, const'),
     dict(fn='osmium::index::RelationsMapIndex::for_each', cond=1, name='for_each_cond_id_above_32bit'),
     dict(fn='osmium::index::RelationsMapStash::add', cond=0, name='add_cond_fits_32bit'),
+    # C15: the generated RECORD of flat_map (all members in the subset: the vector as an opaque value) — `src_tie_flat_map_state`
+    dict(fn=KV32[:-len('::kv_pair')] + '::size'), dict(fn=KV64[:-len('::kv_pair')] + '::size'),
     dict(fn=MDB + 'element::operator<'), dict(fn=MDB + 'element::is_removed'), dict(fn=MDB + 'element::remove'),
     dict(fn=MDB + 'compare_member_id::operator()'),
     dict(fn='osmium::OSMObject::set_version', sig='(osmium::object_version_type)'),
@@ -159,6 +177,23 @@ TARGETS = [
     dict(fn='osmium::io::detail::DenseNodes::size'),
     dict(fn='osmium::io::detail::PrimitiveBlock::can_add', opaque=['osmium::io::detail::PrimitiveBlock::size']),
     dict(fn='osmium::io::detail::PrimitiveBlock::count'),
+    # ---- phase 3: character cursors (join style, x2l_st.py jblock) ----
+    dict(fn='osmium::detail::string_to_location_coordinate'),
+    dict(fn='osmium::io::detail::opl_parse_int', sig='long (const char **)'),
+    dict(fn='osmium::io::detail::opl_parse_int', sig='unsigned int (const char **)'),
+    dict(fn='osmium::io::detail::opl_parse_id'),
+    dict(fn='osmium::io::detail::opl_parse_visible'),
+    dict(fn='osmium::io::detail::opl_non_empty'),
+    dict(fn='osmium::io::detail::opl_parse_space'),
+    dict(fn='osmium::detail::fractional_seconds'),
+    # parse_timestamp as a whole is outside the subset (std::tm, timegm, an effectful call inside `&&`): the digit arithmetic
+    # of the six `tm` fields (`rhs=`: right-hand side of the assignment) is translated
+    dict(fn='osmium::detail::parse_timestamp', sig='(const char **)', rhs='tm.tm_year', name='parse_timestamp_year'),
+    dict(fn='osmium::detail::parse_timestamp', sig='(const char **)', rhs='tm.tm_mon', name='parse_timestamp_mon'),
+    dict(fn='osmium::detail::parse_timestamp', sig='(const char **)', rhs='tm.tm_mday', name='parse_timestamp_mday'),
+    dict(fn='osmium::detail::parse_timestamp', sig='(const char **)', rhs='tm.tm_hour', name='parse_timestamp_hour'),
+    dict(fn='osmium::detail::parse_timestamp', sig='(const char **)', rhs='tm.tm_min', name='parse_timestamp_min'),
+    dict(fn='osmium::detail::parse_timestamp', sig='(const char **)', rhs='tm.tm_sec', name='parse_timestamp_sec'),
 ]
 
 
@@ -216,7 +251,7 @@ def _walk_all(n):
 
 def translate_target(tr, t):
     f = tr.ix.find_function(t['fn'], t.get('sig'))
-    if 'local' not in t and 'cond' not in t and 'loop' not in t:
+    if 'local' not in t and 'cond' not in t and 'loop' not in t and 'rhs' not in t:
         return tr.fn_item(f)
     body = [c for c in f['inner'] if c.get('kind') == 'CompoundStmt'][0]
     parent = f.get('_parent')
@@ -232,16 +267,24 @@ def translate_target(tr, t):
                 raise Unsupported('%s: while with a condition variable' % t['fn'])
             cond, lbody = inn[0], [inn[1]]
         else:
-            if len(inn) != 5 or inn[1] or not inn[2]:
+            if len(inn) != 5 or 'kind' in (inn[1] or {}) or 'kind' not in (inn[2] or {}):
                 raise Unsupported('%s: for statement with a condition variable / without a condition' % t['fn'])
-            cond, lbody = inn[2], [inn[4]] + ([inn[3]] if inn[3] else [])
+            cond, lbody = inn[2], [inn[4]] + ([inn[3]] if 'kind' in (inn[3] or {}) else [])
         env = Env(Ty('rec', rec=parent) if is_method else None, extract=True)
         env.used.update(['self', 'fuel'])
         lp.setdefault('_file', f['_file'])
         it, params, modified = tr.loop_def(cond, lbody, env, f, t['name'], lp, ' (loop #%d of %s as a function of the variables it reads; '
                                            'result: the variables it modifies)' % (t['loop'], f['_q']))
         return it
-    if 'local' in t:
+    if 'rhs' in t:
+        # the right-hand side of the (nth) assignment statement whose left-hand side reads `t['rhs']` in the source
+        cands = [x for x in _walk_all(body) if x.get('kind') == 'BinaryOperator' and x.get('opcode') == '=' and
+                 ''.join(tr.src.text(x['inner'][0]).split()) == ''.join(t['rhs'].split())]
+        if len(cands) <= t.get('nth', 0):
+            raise Unsupported('%s: %d assignments to `%s`' % (t['fn'], len(cands), t['rhs']))
+        expr, what = cands[t.get('nth', 0)]['inner'][1], ' (right-hand side of the assignment to `%s` in %s)' % (t['rhs'], f['_q'])
+        want = None
+    elif 'local' in t:
         vs = []
         _walk_stmts(body, vs, 'VarDecl')
         vs = [v for v in vs if v.get('name') == t['local']]
@@ -258,6 +301,13 @@ def translate_target(tr, t):
         if t['cond'] >= len(ifs):
             raise Unsupported('%s has only %d if statements (condition %d requested)' % (t['fn'], len(ifs), t['cond']))
         expr, what = ifs[t['cond']]['inner'][0], ' (condition of if #%d in %s)' % (t['cond'], f['_q'])
+        for _ in range(t.get('and_left', 0)):          # the conjuncts before the last `and_left` ones of an `&&` chain
+            while expr.get('kind') in ('ParenExpr', 'ExprWithCleanups'):
+                expr = expr['inner'][0]
+            if expr.get('kind') != 'BinaryOperator' or expr.get('opcode') != '&&':
+                raise Unsupported('%s: condition #%d is not an && chain of the requested length' % (t['fn'], t['cond']))
+            expr = expr['inner'][0]
+            what = ' (condition of if #%d in %s without its last %d conjunct(s))' % (t['cond'], f['_q'], t['and_left'])
         want = None
     env = Env(Ty('rec', rec=parent) if is_method else None, extract=True)
     env.used.add('self')
@@ -270,7 +320,8 @@ def translate_target(tr, t):
         params = [('self', env.self_ty)] + params
     area = tr.area_of(f)
     expr.setdefault('_file', f['_file'])
-    return tr.emit_fn(area, t['name'], expr, params, e.ty, ('ret', e.term), ('ret', e.defd or 'true'), env.uses_self, extra_doc=what)
+    return tr.emit_fn(area, t['name'], expr, params, e.ty, ('ret', e.term), ('ret', e.defd or 'true'), env.uses_self, extra_doc=what,
+                      fx=(env.fx if env.fx.buf else None))
 
 
 # ---- clang + cache ---------------------------------------------------------------------------------
@@ -301,14 +352,19 @@ def translate(inc):
     funcs, failures = [], []
     for t in TARGETS:
         label = t.get('name') or t['fn']
+        mark = (len(tr.order), dict(tr.items))
         try:
             it = translate_target(tr, t)
             funcs.append({'target': label, 'lean': 'Osmium.Generated.' + it.full, 'source': tr.where(it.node),
                           'source_sha256': _sha(tr.src.text(it.node).encode())[:16], 'defined_trivial': it.defd_trivial})
         except Unsupported as ex:
             failures.append({'target': label, 'why': str(ex)})
-        except (KeyError, IndexError, TypeError, ValueError) as ex:
+            del tr.order[mark[0]:]                 # nothing of a refused target is emitted
+            tr.items = mark[1]
+        except (KeyError, IndexError, TypeError, ValueError, AttributeError) as ex:
             failures.append({'target': label, 'why': 'translator error %s: %s' % (type(ex).__name__, ex)})
+            del tr.order[mark[0]:]
+            tr.items = mark[1]
     return {'lean': render(tr), 'functions': funcs, 'failures': failures, 'clang_cmd': cmd,
             'deps': {p: _file_hash(p) for p in deps}, 'translate_s': round(time.time() - t0, 2)}
 
